@@ -202,20 +202,21 @@ Fixpoint cbrt_newton (fuel : nat) (nc : ctx) (lprec maxit : Z) (ax z prevz : dec
 Definition ex_cube (t : dec) : res (edres dec) := edo s <- ex_mul t t; ex_mul s t.
 
 (* step towards the root while the neighbour is still on the far side of it: at most two steps *)
-Fixpoint cbrt_step (steps : nat) (p : Z) (d ax : dec) : res dec :=
+Fixpoint cbrt_step (steps : nat) (p et : Z) (d ax : dec) : res dec :=
   match steps with
   | O => Ok d
   | S m =>
       do nd <- num_digits (coeff d);
-      let ulp := mkDec Finite false (exp d - (p - nd)) 1 in
+      let ue := exp d - (p - nd) in
+      let ulp := mkDec Finite false (if ue <? et then et else ue) 1 in      (* a subnormal result: the unit is 10^Etiny *)
       do lo <- ex_add d ulp true;
       do clo <- match lo with EdOk nb => do cu <- ex_cube nb; match cu with EdOk cb => do cm <- dcmp cb ax; Ok (Some (nb, cm)) | EdErr _ => Ok None end | EdErr _ => Ok None end;
       match clo with
-      | Some (nb, cm) => if cm >? 0 then cbrt_step m p nb ax else
+      | Some (nb, cm) => if cm >? 0 then cbrt_step m p et nb ax else
           do hi <- ex_add d ulp false;
           do chi <- match hi with EdOk nb2 => do cu <- ex_cube nb2; match cu with EdOk cb => do cm2 <- dcmp cb ax; Ok (Some (nb2, cm2)) | EdErr _ => Ok None end | EdErr _ => Ok None end;
           match chi with
-          | Some (nb2, cm2) => if cm2 <? 0 then cbrt_step m p nb2 ax else Ok d
+          | Some (nb2, cm2) => if cm2 <? 0 then cbrt_step m p et nb2 ax else Ok d
           | None => Ok d
           end
       | None => Ok d       (* an exponent-limit error inside the exact arithmetic: not modelled further *)
@@ -256,8 +257,8 @@ Definition ctx_cbrt (c : ctx) (x : dec) : res result :=
           if (exact_hit : bool) then Ok (mkResult (Some (set_neg t ng)) c0 ENone) else
           do (d, res0) <- ctx_round c z;
           do (d1, res1) <-
-            (if is_finite d && negb (is_zero d) && negb (Subnormal res0 || Overflow res0 || Clamped res0) then
-               do d2 <- cbrt_step 2 (prec c) d ax;
+            (if is_finite d && negb (is_zero d) && negb (Overflow res0 || Clamped res0) then
+               do d2 <- cbrt_step 2 (prec c) (etiny c) d ax;
                do (d3, f3) <- ctx_round c d2;
                Ok (d3, res0 ||| f3)
              else Ok (d, res0));
